@@ -39,11 +39,16 @@ def base_meta(E, version, force=None):
     info = {}
     if has("comment"):
         info["comment"] = OStr("base.comment", nonempty=True)
+    # payload names are chosen adversarially: files and directories called like the editable fields
+    big = 70000 if has("layers") else 30000
     if version in (2, 3):
-        info["file tree"] = {"a": {"": {"length": 70000, "pieces root": tok("root-a", 32)}},
-                             "b": {"": {"length": 5, "pieces root": tok("root-b", 32)}}}
+        info["file tree"] = {"announce": {"": {"length": big, "pieces root": tok("root-a", 32)}},
+                             "comment": {"": {"length": 5, "pieces root": tok("root-b", 32)}},
+                             "private": {"source": {"": {"length": 7, "pieces root": tok("root-c", 32)}},
+                                         "url-list": {"": {"length": 0}}}}
     if version in (1, 3):
-        info["files"] = [{"length": 70000, "path": ["a"]}, {"length": 5, "path": ["b"]}]
+        info["files"] = [{"length": big, "path": ["announce"]}, {"length": 5, "path": ["comment"]},
+                         {"length": 7, "path": ["private", "source"]}, {"length": 0, "path": ["private", "url-list"]}]
     if version in (2, 3):
         info["meta version"] = 2
     info["name"] = "name"
@@ -56,7 +61,7 @@ def base_meta(E, version, force=None):
         info["source"] = OStr("base.source", nonempty=True)
     meta["info"] = info
     if version in (2, 3):
-        meta["piece layers"] = {tok("root-a", 32): tok("layer-a", 96)}
+        meta["piece layers"] = {tok("root-a", 32): tok("layer-a", 96)} if big > 32768 else {}
     if has("url-list"):
         meta["url-list"] = [OStr("base.webseed", nonempty=True)]
     return meta
